@@ -1166,6 +1166,93 @@ def replay_can_decode(d):
     return False, "decodes to the binding's name and the original value" if e["name"] else "reported as unknown"
 
 
+_DYN_MAIN = r"""
+#include <cstdio>
+#include <cstring>
+#include <exception>
+extern "C" void* dyn_load(const char* bin, unsigned long n);
+extern "C" long dyn_enc(void* sp, const unsigned char* args, unsigned char* out);
+extern "C" long sta_enc(const unsigned char* args, unsigned char* out);
+extern "C" long dyn_dec(void* sp, const unsigned char* in, unsigned long n, unsigned char* area);
+extern "C" long sta_dec(const unsigned char* in, unsigned long n, unsigned char* area);
+static unsigned long unhex(const char* p, unsigned char* o) { unsigned long n = 0; for (; p[0] && p[1]; p += 2) { unsigned v; sscanf(p, "%2x", &v); o[n++] = (unsigned char)v; } return n; }
+static void show(const char* tag, long n, const unsigned char* o) { printf("%s=", tag); if (n < 0) printf("nullopt"); else for (long i = 0; i < n; i++) printf("%02x", o[i]); printf("\n"); }
+int main(int argc, char** argv) {
+    static unsigned char bin[1 << 20], in[65536], o1[65536], o2[65536];
+    unsigned long nb = unhex(argv[2], bin), n = argc > 3 ? unhex(argv[3], in) : 0;
+    void* sp = 0;
+    try { sp = dyn_load((const char*)bin, nb); } catch (const std::exception& e) { printf("load=throws %s\n", e.what()); return 0; }
+    printf("load=ok\n");
+    if (argv[1][0] == 'l') return 0;
+    long a = -2, b = -2;
+    try { a = argv[1][0] == 'e' ? sta_enc(in, o1) : sta_dec(in, n, o1); show("sta", a, o1); } catch (const std::exception& e) { printf("sta=throws\n"); }
+    try { b = argv[1][0] == 'e' ? dyn_enc(sp, in, o2) : dyn_dec(sp, in, n, o2); show("dyn", b, o2); } catch (const std::exception& e) { printf("dyn=throws\n"); }
+    return 0;
+}
+"""
+
+
+def _native_dyn(d, mode, inbytes, compilers=("clang++-14", "g++")):
+    """The C13 harness TU compiled natively: both codecs through their JSON entry points, real nlohmann::json, real libstdc++."""
+    import os
+
+    from . import cxx
+    from .native import Scratch, run
+
+    sch = _schema(d)
+    outs = []
+    with Scratch() as dd:
+        if d.get("_primed") and d.get("decoy_text"):
+            from .prime import prime
+            prime(d["decoy_text"], ("cpp",))
+        fcp = cxx.generate_cpp(d["schema_text"], dd)
+        binhex = cxx.reflection_binary(fcp).hex()
+        open(os.path.join(dd, "harness.cpp"), "w").write(cxx.dyn_harness_source(sch))
+        open(os.path.join(dd, "main.cpp"), "w").write(_DYN_MAIN)
+        for cc in compilers:
+            rc, so, se = run([cc, "-std=c++17", "-O1", "-w", "-I", dd, "-I", cxx.THIRD_PARTY, "harness.cpp", "main.cpp",
+                              "-o", os.path.join(dd, "a.out")], cwd=dd, timeout=900)
+            if rc:
+                outs.append((cc, "compile-error", se[-600:]))
+                continue
+            rc, so, se = run([os.path.join(dd, "a.out"), mode, binhex, "".join(f"{b:02x}" for b in inbytes)], cwd=dd, timeout=60)
+            outs.append((cc, rc, so.strip() if rc == 0 else f"crashed rc={rc} {se[-200:]}"))
+    return outs
+
+
+def replay_dyn_compile(d):
+    for cc, rc, so in _native_dyn(d, "l", []):
+        if rc == "compile-error":
+            return True, f"generated run-time codec does not compile with {cc}: {so[-300:]}"
+        if "load=ok" not in so:
+            return True, f"{cc}: LoadBinarySchema on the tool's reflection binary: {so[-200:]}"
+    return False, "compiles and loads"
+
+
+def _dyn_compare(d, mode, inbytes, what):
+    for cc, rc, so in _native_dyn(d, mode, inbytes):
+        if rc == "compile-error":
+            return True, f"does not compile with {cc}: {so[-200:]}"
+        lines = dict(l.split("=", 1) for l in so.splitlines() if "=" in l)
+        if lines.get("load") != "ok":
+            return True, f"{cc}: {so[-200:]}"
+        if rc != 0 or "sta" not in lines or "dyn" not in lines:
+            return True, f"{cc}: {so[-300:]}"
+        if lines["sta"] != lines["dyn"]:
+            return True, f"{cc}: {what}: static {lines['sta']} != dynamic {lines['dyn']}"
+    return False, "static and dynamic agree"
+
+
+def replay_dyn_encode(d):
+    import json as _json
+
+    return _dyn_compare(d, "e", d["area"], f"EncodeJson({_json.dumps(d['value'])})")
+
+
+def replay_dyn_decode(d):
+    return _dyn_compare(d, "d", d["bytes"], f"DecodeJson(bytes {bytes(d['bytes']).hex()}) dumped as flat area")
+
+
 def replay_cpp_carrier(d):
     import fcp_cpp.generator as G
 
